@@ -7,6 +7,8 @@ import (
 	"fmt"
 	"os"
 	"path/filepath"
+	"sort"
+	"strconv"
 	"strings"
 	"sync"
 )
@@ -14,7 +16,7 @@ import (
 // Op is one stored-data corruption operator (DESIGN §3.1).  Offsets are reduced modulo the
 // current length when applied, so every Op is applicable to every content.
 type Op struct {
-	Kind    string `json:"k"`             // trunc | bitflip | subst | zero | dup | swap | garbage | empty | marker
+	Kind    string `json:"k"`             // trunc | bitflip | subst | zero | dup | swap | garbage | empty | marker | setu32 | nul | crlf | cutquote | delclose | emptyval | longtok | dupline | delline | nullval | strval
 	Off     int    `json:"off,omitempty"` // byte offset
 	FromEnd bool   `json:"end,omitempty"` // Off counts back from the end
 	Len     int    `json:"len,omitempty"` // block length
@@ -88,6 +90,81 @@ func (o Op) apply(b []byte) []byte {
 			copy(out[lo:hi], out[hi:hi+l])
 			copy(out[hi:hi+l], tmp)
 		}
+	case "setu32":
+		// overwrite a little-endian 32-bit field (sizes, counts, offsets of binary headers)
+		if lo, _ := blk(); lo+4 <= n {
+			v := []uint32{0, 1, 0xffffffff, 0x7fffffff, 0x80000000, 0x00010000, 0x10000000, 0xfffffff0}[o.Val&7]
+			out[lo], out[lo+1], out[lo+2], out[lo+3] = byte(v), byte(v>>8), byte(v>>16), byte(v>>24)
+		}
+	case "nul":
+		l := o.Len
+		if l < 1 {
+			l = 1
+		}
+		res := append([]byte(nil), out[:off]...)
+		res = append(res, make([]byte, l)...)
+		return append(res, out[off:]...)
+	case "crlf":
+		return bytes.ReplaceAll(out, []byte("\n"), []byte("\r\n"))
+	case "cutquote", "delclose", "emptyval", "longtok":
+		// text-aware: Off selects the n-th occurrence of a character class
+		class := map[string]string{"cutquote": "\"'`", "delclose": "]})>\"'", "emptyval": "=:", "longtok": "=:, \t\"[{("}[o.Kind]
+		var pos []int
+		for i, c := range out {
+			if strings.IndexByte(class, c) >= 0 {
+				pos = append(pos, i)
+			}
+		}
+		if len(pos) == 0 {
+			return out
+		}
+		at := pos[o.Off%len(pos)]
+		switch o.Kind {
+		case "cutquote": // the content ends right after an opening/closing quote
+			return out[:at+1]
+		case "delclose": // a closing bracket / quote is missing
+			return append(out[:at:at], out[at+1:]...)
+		case "emptyval": // nothing after the delimiter on that line
+			end := at + 1
+			for end < n && out[end] != '\n' {
+				end++
+			}
+			keep := 0
+			if o.Val&1 == 1 && end > at+1 {
+				keep = 1 // keep one character of the value (e.g. a lone quote)
+			}
+			return append(out[:at+1+keep:at+1+keep], out[end:]...)
+		default: // a very long token after the delimiter
+			l := o.Len
+			if l < 1 {
+				l = 1
+			}
+			res := append([]byte(nil), out[:at+1]...)
+			res = append(res, bytes.Repeat([]byte{"Aa1-./"[o.Val%6]}, l)...)
+			return append(res, out[at+1:]...)
+		}
+	case "nullval", "strval":
+		return structural(out, o)
+	case "dupline", "delline":
+		lines := bytes.SplitAfter(out, []byte("\n"))
+		if len(lines) == 0 {
+			return out
+		}
+		i := o.Off % len(lines)
+		var res []byte
+		for j, l := range lines {
+			if j == i && o.Kind == "delline" {
+				continue
+			}
+			res = append(res, l...)
+			if j == i && o.Kind == "dupline" {
+				if !bytes.HasSuffix(l, []byte("\n")) {
+					res = append(res, '\n')
+				}
+				res = append(res, l...)
+			}
+		}
+		return res
 	case "marker":
 		// plugin failure as a fault kind: the harness canary extractor panics (Val 0) or returns
 		// an error (Val 1) on content that carries the marker
@@ -271,4 +348,104 @@ func (s *Src) describe() string {
 		sb.WriteString(" " + o.String())
 	}
 	return sb.String()
+}
+
+// specialStrings are the values the "strval" operator puts in place of a string value.
+var specialStrings = []string{"", "npm:b", "__MSG__", "__MSG_x__", "file:", "@", "@a", "a@", "/", "/@a", "git+", "../..", "0", "latest", " ", "a:b:c", "=", "\u0000"}
+
+// structural rewrites one node of a JSON document (Off = which node in document order):
+// "nullval" replaces it by null (Val odd: by [null]), "strval" replaces a string by a special
+// string.  Content that is not JSON (YAML, TOML, JSON5, ...) is handled line-wise: the value
+// after the first ':' or '=' of the selected line, or a "- item" list element.
+func structural(b []byte, o Op) []byte {
+	repl := any(nil)
+	if o.Kind == "strval" {
+		repl = specialStrings[o.Val%len(specialStrings)]
+	} else if o.Val&1 == 1 {
+		repl = []any{nil}
+	}
+	var doc any
+	dec := json.NewDecoder(bytes.NewReader(b))
+	dec.UseNumber()
+	if err := dec.Decode(&doc); err == nil {
+		// count the candidate nodes, then rewrite the selected one
+		n := 0
+		var walk func(v any, pick int) (any, bool)
+		walk = func(v any, pick int) (any, bool) {
+			cand := o.Kind == "nullval"
+			if _, isStr := v.(string); isStr {
+				cand = true
+			}
+			if cand {
+				if n == pick {
+					n++
+					return repl, true
+				}
+				n++
+			}
+			switch x := v.(type) {
+			case map[string]any:
+				keys := make([]string, 0, len(x))
+				for k := range x {
+					keys = append(keys, k)
+				}
+				sort.Strings(keys)
+				for _, k := range keys {
+					if nv, done := walk(x[k], pick); done {
+						x[k] = nv
+						return x, true
+					}
+				}
+			case []any:
+				for i := range x {
+					if nv, done := walk(x[i], pick); done {
+						x[i] = nv
+						return x, true
+					}
+				}
+			}
+			return v, false
+		}
+		walk(doc, -1)
+		if n == 0 {
+			return b
+		}
+		total := n
+		n = 0
+		nd, _ := walk(doc, o.Off%total)
+		if out, err := json.MarshalIndent(nd, "", "  "); err == nil {
+			return append(out, '\n')
+		}
+		return b
+	}
+	lines := bytes.SplitAfter(b, []byte("\n"))
+	var cands []int
+	for i, l := range lines {
+		t := bytes.TrimSpace(l)
+		if len(t) > 0 && t[0] != '#' && (bytes.ContainsAny(t, ":=") || bytes.HasPrefix(t, []byte("- "))) {
+			cands = append(cands, i)
+		}
+	}
+	if len(cands) == 0 {
+		return b
+	}
+	i := cands[o.Off%len(cands)]
+	l := lines[i]
+	val := "null"
+	if s, ok := repl.(string); ok {
+		val = strconv.Quote(s)
+	} else if repl != nil {
+		val = "[null]"
+	}
+	body := bytes.TrimRight(l, "\r\n")
+	eol := l[len(body):]
+	var nl []byte
+	if t := bytes.TrimLeft(body, " \t"); bytes.HasPrefix(t, []byte("- ")) && !bytes.ContainsAny(t, ":=") {
+		nl = append(append([]byte(nil), body[:len(body)-len(t)+2]...), val...)
+	} else {
+		at := bytes.IndexAny(body, ":=")
+		nl = append(append([]byte(nil), body[:at+1]...), (" " + val)...)
+	}
+	lines[i] = append(nl, eol...)
+	return bytes.Join(lines, nil)
 }
